@@ -68,7 +68,7 @@ where
     // for now, write this as a type alias; we may want to change this to a newtype
     // in the future
     if let Some(comment) = comment {
-        for line in comment.split('\n') {
+        for line in comment.lines().flat_map(|line| line.split('\r')) {
             writeln!(writer, "/// {line}")?;
         }
     }
@@ -97,10 +97,10 @@ where
 {
     writeln!(writer, "#[derive(Debug, Default, YaSerialize, YaDeserialize)]")?;
     if let Some(tns) = &target_namespace {
-        let namespaces = format!("\"{}\" = \"{}\"", tns.abbreviation, tns.namespace);
+        let namespaces = format!("{:?} = {:?}", tns.abbreviation, tns.namespace);
         writeln!(
             writer,
-            "#[yaserde(prefix = \"{}\", namespaces = {{{}}}, rename = \"{}\")]",
+            "#[yaserde(prefix = {:?}, namespaces = {{{}}}, rename = {:?})]",
             tns.abbreviation, namespaces, xml_name
         )?;
     }
@@ -140,7 +140,7 @@ where
     let rust_name = xml_name_to_rust_name(xml_name);
 
     if let Some(comment) = comment {
-        for line in comment.split('\n') {
+        for line in comment.lines().flat_map(|line| line.split('\r')) {
             writeln!(writer, "/// {line}")?;
         }
     }
@@ -159,12 +159,12 @@ where
         }
         let namespaces = used
             .iter()
-            .map(|ns| format!("\"{}\" = \"{}\"", ns.abbreviation, ns.namespace))
+            .map(|ns| format!("{:?} = {:?}", ns.abbreviation, ns.namespace))
             .collect::<Vec<String>>()
             .join(", ");
         writeln!(
             writer,
-            "#[yaserde(prefix = \"{}\", namespaces = {{{}}}, rename = \"{}\")]",
+            "#[yaserde(prefix = {:?}, namespaces = {{{}}}, rename = {:?})]",
             tns.abbreviation, namespaces, xml_name
         )?;
     }
